@@ -203,6 +203,49 @@ Theorem C14_evicted_not_resumed :
 Proof. exact evicted_not_resumed. Qed.
 Print Assumptions C14_evicted_not_resumed.
 
+(* The same for fatal alerts sent from the RECORD path of an established connection (conn.go notify
+   reached from processIncomingPacket: unexpected_message, decode_error): the sender's operations are
+   [alert_ops_client] / [alert_ops_server]; afterwards its store has no entry for the session, the
+   next ClientHello under that key is empty and the server does not resume the id. *)
+Theorem C14_record_alert_evicts_client :
+  forall (K V : Type) (KB : secret -> N -> N -> K) (VD : bool -> secret -> N * N * bid -> V)
+         (K_eqb : K -> K -> bool) (V_eqb : V -> V -> bool) (p : params) (cs ss : store),
+    let r := conn K V KB VD K_eqb V_eqb p cs ss in
+    o_out (r_c r) = Established -> o_sid (r_c r) <> 0 ->
+    get (p_ckey p) (apply_ops (post_c cs r) (alert_ops_client p (o_sid (r_c r)))) = None.
+Proof. exact record_alert_evicts_client. Qed.
+Print Assumptions C14_record_alert_evicts_client.
+
+Theorem C14_record_alert_evicts_server :
+  forall (K V : Type) (KB : secret -> N -> N -> K) (VD : bool -> secret -> N * N * bid -> V)
+         (K_eqb : K -> K -> bool) (V_eqb : V -> V -> bool) (p : params) (cs ss : store),
+    let r := conn K V KB VD K_eqb V_eqb p cs ss in
+    o_out (r_s r) = Established -> o_sid (r_s r) <> 0 ->
+    get (o_sid (r_s r)) (apply_ops (post_s ss r) (alert_ops_server (o_sid (r_s r)))) = None.
+Proof. exact record_alert_evicts_server. Qed.
+Print Assumptions C14_record_alert_evicts_server.
+
+Theorem C14_record_alert_not_offered :
+  forall (K V : Type) (KB : secret -> N -> N -> K) (VD : bool -> secret -> N * N * bid -> V)
+         (K_eqb : K -> K -> bool) (V_eqb : V -> V -> bool) (p : params) (cs ss : store) (p' : params) (ss' : store),
+    let r := conn K V KB VD K_eqb V_eqb p cs ss in
+    o_out (r_c r) = Established -> o_sid (r_c r) <> 0 -> p_ckey p' = p_ckey p ->
+    r_offered (conn K V KB VD K_eqb V_eqb p' (apply_ops (post_c cs r) (alert_ops_client p (o_sid (r_c r)))) ss') = 0.
+Proof. exact record_alert_not_offered. Qed.
+Print Assumptions C14_record_alert_not_offered.
+
+Theorem C14_record_alert_not_resumed :
+  forall (K V : Type) (KB : secret -> N -> N -> K) (VD : bool -> secret -> N * N * bid -> V)
+         (K_eqb : K -> K -> bool) (V_eqb : V -> V -> bool),
+    reflects K_eqb -> KB_injective KB ->
+    forall (p : params) (cs ss : store) (p' : params) (cs' : store),
+      let r := conn K V KB VD K_eqb V_eqb p cs ss in
+      o_out (r_s r) = Established -> o_sid (r_s r) <> 0 ->
+      offered_id (offer p' cs') = o_sid (r_s r) ->
+      r_mode (conn K V KB VD K_eqb V_eqb p' cs' (apply_ops (post_s ss r) (alert_ops_server (o_sid (r_s r))))) = Full.
+Proof. exact record_alert_not_resumed. Qed.
+Print Assumptions C14_record_alert_not_resumed.
+
 (* A full handshake in which the client presented a certificate writes no session into the
    server's store (entries can only disappear) and leaves the server's session id empty. *)
 Theorem C14_client_cert_not_stored :
